@@ -173,7 +173,7 @@ pub fn run_batch(spec: &BatchSpec) -> BatchResult {
         .ok()
         .and_then(|s| s.parse().ok())
         .unwrap_or(if spec.tier == "thorough" { 6 * 3600 } else { 1500 });
-    for (mut child, out_path) in children {
+    for (widx, (mut child, out_path)) in children.into_iter().enumerate() {
         let status = loop {
             match child.try_wait() {
                 Ok(Some(st)) => break st,
@@ -208,7 +208,18 @@ pub fn run_batch(spec: &BatchSpec) -> BatchResult {
                 merged.samples.push(s);
             }
         }
-        merged.violations.extend(out.violations);
+        for mut v in out.violations {
+            v.set(
+                "worker_slice",
+                Json::obj()
+                    .with("prop", Json::s(spec.prop.clone()))
+                    .with("part", Json::s(spec.part.clone()))
+                    .with("tier", Json::s(spec.tier.clone()))
+                    .with("stride", Json::u(workers as u64))
+                    .with("offset", Json::u(widx as u64)),
+            );
+            merged.violations.push(v);
+        }
         for (h, w) in out.distinct {
             let e = distinct.entry(h).or_insert(0);
             if *e < w {
@@ -391,15 +402,43 @@ pub fn handle_violations(
         let confirmed = code == 1 && stdout.contains(&format!("class={}", class));
         minimised.set("confirmed_in_fresh_process", Json::Bool(confirmed));
         let path = write_replay(&minimised);
+        let mut path = path;
         if !confirmed {
-            // a violation that does not reproduce from its replay file is a harness problem
-            eprintln!(
-                "HARNESS-ERROR: replay of {} did not reproduce (exit {}, output: {})",
-                path.display(),
-                code,
-                stdout.trim()
-            );
-            std::process::exit(2);
+            // (a) the minimiser may have lost what the violation depends on: try the original
+            let mut original = v.clone();
+            let opath = write_replay(&original);
+            let (ocode, ostdout) = replay_in_fresh_process(exe, &opath);
+            if ocode == 1 && ostdout.contains(&format!("class={}", class)) {
+                original.set("confirmed_in_fresh_process", Json::Bool(true));
+                original.set("note", Json::s("the minimised form did not reproduce in a fresh process; this is the unminimised case"));
+                path = write_replay(&original);
+                minimised = original;
+            } else {
+                // (b) process-global state leaked from the runs that preceded it in the same worker
+                // process: replay the worker's slice up to and including this run
+                let mut with_prefix = v.clone();
+                if let Some(slice) = v.get("worker_slice") {
+                    with_prefix.set("process_prefix", slice.clone());
+                }
+                with_prefix.set("note", Json::s("reproduces only after the runs that preceded it in the same worker process (process-global state): the replay re-executes that slice of run seeds first"));
+                let ppath = write_replay(&with_prefix);
+                let (pcode, pstdout) = replay_in_fresh_process(exe, &ppath);
+                if pcode == 1 && pstdout.contains(&format!("class={}", class)) {
+                    with_prefix.set("confirmed_in_fresh_process", Json::Bool(true));
+                    path = write_replay(&with_prefix);
+                    minimised = with_prefix;
+                } else {
+                    // a violation that reproduces in no way from its replay file is a harness problem
+                    eprintln!(
+                        "HARNESS-ERROR: replay of {} did not reproduce, neither alone (exit {}) nor after its process prefix (exit {}, output: {})",
+                        ppath.display(),
+                        ocode,
+                        pcode,
+                        pstdout.trim()
+                    );
+                    std::process::exit(2);
+                }
+            }
         }
         let prop = minimised.get("property").and_then(|p| p.as_str()).unwrap_or("");
         if let Some(what) = known.matches(&minimised) {
@@ -414,6 +453,71 @@ pub fn handle_violations(
         }
     }
     verdict
+}
+
+/// Replays a violation together with the runs that preceded it in its worker process (same batch
+/// seed, stride and offset), in a fresh worker process. Exit code semantics as for a replay.
+pub fn prefix_replay(exe: &Path, replay: &Json) -> i32 {
+    let slice = match replay.get("process_prefix") {
+        Some(s) => s,
+        None => return 2,
+    };
+    let target = replay.get("run_index").and_then(|x| x.as_u64()).unwrap_or(0);
+    let class = replay.get("class").and_then(|x| x.as_str()).unwrap_or("");
+    let out_path = work_dir().join(format!("prefix-replay-{}.json", std::process::id()));
+    let status = Command::new(exe)
+        .arg("worker")
+        .arg(slice.get("prop").and_then(|x| x.as_str()).unwrap_or(""))
+        .arg(slice.get("part").and_then(|x| x.as_str()).unwrap_or(""))
+        .arg("--tier")
+        .arg(slice.get("tier").and_then(|x| x.as_str()).unwrap_or("quick"))
+        .arg("--batch-seed")
+        .arg(replay.get("batch_seed").and_then(|x| x.as_u64()).unwrap_or(0).to_string())
+        .arg("--runs")
+        .arg((target + 1).to_string())
+        .arg("--stride")
+        .arg(slice.get("stride").and_then(|x| x.as_u64()).unwrap_or(1).to_string())
+        .arg("--offset")
+        .arg(slice.get("offset").and_then(|x| x.as_u64()).unwrap_or(0).to_string())
+        .arg("--out")
+        .arg(&out_path)
+        .stdin(Stdio::null())
+        .status();
+    match status {
+        Ok(s) if s.success() => {},
+        _ => {
+            eprintln!("HARNESS-ERROR: prefix replay worker failed");
+            return 2;
+        },
+    }
+    let out = match WorkerOut::read(&out_path) {
+        Ok(o) => o,
+        Err(e) => {
+            eprintln!("HARNESS-ERROR: {}", e);
+            return 2;
+        },
+    };
+    let _ = fs::remove_file(&out_path);
+    let _ = fs::remove_file(out_path.with_extension("distinct"));
+    for v in &out.violations {
+        if v.get("run_index").and_then(|x| x.as_u64()) == Some(target)
+            && v.get("class").and_then(|x| x.as_str()) == Some(class)
+        {
+            println!(
+                "VIOLATION property={} class={} run_index={} (reproduced after re-executing the {} preceding runs of its worker process)",
+                v.get("property").and_then(|x| x.as_str()).unwrap_or(""),
+                class,
+                target,
+                out.runs.saturating_sub(1)
+            );
+            if let Some(s) = v.get("summary").and_then(|s| s.as_str()) {
+                println!("  {}", s);
+            }
+            return 1;
+        }
+    }
+    println!("replay: no violation at run {} after its process prefix ({} runs)", target, out.runs);
+    0
 }
 
 /// Parses `--key value` style worker arguments.
